@@ -24,8 +24,27 @@ let field_of_tok (t : string) : UniqueModel.fieldspec =
   | [n; i] -> { UniqueModel.f_name = bytes_of_string n; f_oneof = Some (n_of_int (int_of_string i)) }
   | _ -> failwith ("bad field token " ^ t)
 
+(* Tier T: the functions of internal/strs/strings.go as translated by srcmodel_strs
+   (Gen/StrsGo.v), run on the same inputs as the hand model *)
+let zs_of_hex s = Stdlib.List.map (fun b -> z_of_int (int_of_byte b)) (bytes_of_hex s)
+let tok_of_outcome (o : BinNums.coq_Z list GoInt.outcome) : string =
+  match o with
+  | GoInt.Val l -> hex_of_bytes (Stdlib.List.map (fun z -> byte_of_int (int_of_z z)) l)
+  | GoInt.Panic -> "panic"
+  | GoInt.Fuel -> "fuel"
+
 let handle op args =
   match op, args with
+  | "go_pure", [s] ->
+      let s = zs_of_hex s in
+      [tok_of_outcome (StrsGo.go_GoCamelCase s); tok_of_outcome (StrsGo.go_JSONCamelCase s);
+       tok_of_outcome (StrsGo.go_JSONSnakeCase s)]
+  | "go_trim", [s; p] -> [tok_of_outcome (StrsGo.go_TrimEnumPrefix (zs_of_hex s) (zs_of_hex p))]
+  | "trim", [s; p] -> [hex_of_bytes (StrsTrimModel.trim_enum_prefix (bytes_of_hex s) (bytes_of_hex p))]
+  | "go_lower", [c] -> [hex_of_z (StrsGoBase.unicode_ToLower (z_of_hex c))]
+  | "go_cls", [c] ->
+      let c = z_of_hex c in
+      [tok_of_bool (StrsGo.go_isASCIILower c); tok_of_bool (StrsGo.go_isASCIIUpper c); tok_of_bool (StrsGo.go_isASCIIDigit c)]
   | "pure", [s] ->
       let s = bytes_of_hex s in
       let (cls, out) = fieldmask_path s in
